@@ -413,7 +413,10 @@ class MelodyModel:
                 raise ValueError(f"Malformed or missing UUID for {target!r}")
 
         for elem in self._loader.xpath(
-            f"//*[@*[contains(., '#{uuid}')] | */@*[contains(., '#{uuid}')]]",
+            # The "href" of a fragment placeholder is containment, not a
+            # reference to the fragmented element.
+            f"//*[@*[name() != 'href'][contains(., '#{uuid}')]"
+            f" | */@*[name() != 'href'][contains(., '#{uuid}')]]",
             roots=[
                 i.root
                 for i in self._loader.trees.values()
